@@ -190,6 +190,29 @@ def listLabelsRace (s0 s1 : St) (r p : Str) : Out :=
     | none => .err
     | some l => .labels l
 
+/-- the deletion loop of `core.DeleteBundle`: `DeleteLabel` for each name in turn, stopping at the
+    first one that fails -/
+def deleteLabelsOf (s : St) (r : Str) : List Str → St × Out
+  | [] => (s, .ok)
+  | n :: ns =>
+    match deleteLabel s r n with
+    | (s1, .ok) => deleteLabelsOf s1 r ns
+    | (s1, _) => (s1, .err)
+
+/-- `core.DeleteBundle(repo, stores, b)` with its default options, as far as labels are concerned:
+    the repository and the bundle descriptor must be there; ALL the labels of the repository are
+    listed (`ListLabels`, any failing label fails the deletion before anything is removed); every label
+    whose bundle is `b` is deleted; then the bundle descriptor goes. -/
+def deleteBundle (s : St) (r b : Str) : St × Out :=
+  if !repoExists s r then (s, .err)
+  else if !has (bundleKey r b) s.md then (s, .err)
+  else match listLabels s r [] with
+    | .labels l =>
+      match deleteLabelsOf s r ((l.filter fun p => p.2 == b).map (·.1)) with
+      | (s1, .ok) => ({ s1 with md := del (bundleKey r b) s1.md }, .ok)
+      | (s1, _) => (s1, .err)
+    | _ => (s, .err)
+
 inductive Op
   | mkRepo (r : Str)
   | mkBundle (r b : Str)
